@@ -679,6 +679,9 @@ package proxy
 //@   at-call Do as run: assert arg0 == cmdMgr && streq(arg3, cmd)
 //@   ensures [dispatched-once] called(run)
 //@   ensures [no-error-means-executed] res(run) == nil ==> hasRun && err == nil
+//@   at-call Is#1 as fwd: assert arg0 == res(run) && arg1 == command.ErrForward
+//@   at-call Is#2 as unknown: assert arg0 == res(run) && arg1 == brigodier.ErrDispatcherUnknownCommand
+//@   ensures [forward-or-unknown-is-not-a-proxy-command] (called(fwd) && res(fwd)) || (called(unknown) && res(unknown)) ==> !hasRun && err == nil
 // Per protocol family.
 //@ func (*chatHandler).handleCommand
 //@   props C22
